@@ -104,9 +104,21 @@ def run_program(ctx, prog, rng, pidx):
         rec._random = SpyRandom(3)
         rec.enable_recording()
         complete_ids, incomplete_ids = [], []
+        # the service class is invoked again and again: one class for all runs with an extractor configured (its behaviour varies
+        # from run to run), one for the runs without an extractor
+        builts = {}
+        if prog.get('with_inner_operation'):
+            from vlib.programs import Built, World
+            from playback.tape_recorder import RecordingParameters
+            inner_prog = dict(gen_c18_program(prog['gen_seed'] + 7), uid=prog['uid'] + 500000, params={'skipped': True}, with_inner_operation=False)
+            inner_prog['body'] = [st for st in inner_prog['body'] if st['op'] != 'inner_op']
+            prog['_inner_built'] = Built(inner_prog, rec, World(inner_prog['seed_world'], raise_rate=0.0))
         for faults in placements:
             for extractor in ([rng.choice(fr.EXTRACTORS)] if ctx.quick and len(placements) > 12 else fr.EXTRACTORS):
-                res = fr.execute(prog, faults, extractor=extractor, recorder=rec, spy=spy, box=box, with_twin=False)
+                bk = extractor is not None
+                res = fr.execute(prog, faults, extractor=extractor, recorder=rec, spy=spy, box=box, with_twin=False, built=builts.get(bk),
+                                 cls_name='GenOp%d%s' % (prog['uid'], 'X' if bk else 'N'))
+                builts[bk] = res.live
                 w = {'gen_seed': prog['gen_seed'], 'program': describe(prog), 'faults': fr.faults_json(faults), 'extractor': extractor, 'cassette': kind}
                 saves = [e for e in res.spy_events if e[0] == 'save']
                 ctx.case({'p': prog['gen_seed'], 'f': fr.faults_json(faults), 'x': extractor}, nontrivial=bool(saves))
@@ -117,7 +129,7 @@ def run_program(ctx, prog, rng, pidx):
                 interrupted = judge_metadata(ctx, res, md, w, extractor)
                 if any(e[0] == 'save_failed' for e in res.spy_events):
                     continue
-                (incomplete_ids if interrupted else complete_ids).append(saves[0][2])
+                (incomplete_ids if interrupted else complete_ids).append((res.live.cls.__name__, saves[0][2]))
                 # what is stored must say the same as what was handed over
                 try:
                     from playback.tape_recorder import TapeRecorder as TR
@@ -133,15 +145,17 @@ def run_program(ctx, prog, rng, pidx):
                 except Exception as ex:
                     ctx.violation('stored metadata not readable: %s' % type(ex).__name__, w)
         # default lookup excludes exactly the incomplete ones
-        category = res.live.cls.__name__
         reader_rec = TapeRecorder(box.reader())
-        got = list(find_matching_recording_ids(reader_rec, category, RecordingLookupProperties(start_date=None)))
-        ctx.count('default_lookups')
-        ctx.count('lookup_ids_compared', len(complete_ids) + len(incomplete_ids))
-        if sorted(got) != sorted(complete_ids):
-            ctx.violation('default lookup returned %d ids; %d complete and %d incomplete recordings were saved' % (len(got), len(complete_ids), len(incomplete_ids)),
-                          {'gen_seed': prog['gen_seed'], 'program': describe(prog), 'cassette': kind,
-                           'wrongly_included': len(set(got) & set(incomplete_ids)), 'wrongly_excluded': len(set(complete_ids) - set(got))})
+        for category in sorted(set(c for c, _ in complete_ids + incomplete_ids)):
+            comp = [i for c, i in complete_ids if c == category]
+            inc = [i for c, i in incomplete_ids if c == category]
+            got = list(find_matching_recording_ids(reader_rec, category, RecordingLookupProperties(start_date=None)))
+            ctx.count('default_lookups')
+            ctx.count('lookup_ids_compared', len(comp) + len(inc))
+            if sorted(got) != sorted(comp):
+                ctx.violation('default lookup returned %d ids; %d complete and %d incomplete recordings were saved' % (len(got), len(comp), len(inc)),
+                              {'gen_seed': prog['gen_seed'], 'program': describe(prog), 'cassette': kind,
+                               'wrongly_included': len(set(got) & set(inc)), 'wrongly_excluded': len(set(comp) - set(got))})
 
 
 def gen_c18_program(seed):
@@ -150,6 +164,9 @@ def gen_c18_program(seed):
                     nested=False, record_data=False, extractor=False)
     p['gen_seed'] = seed
     p['params'] = None
+    p['with_inner_operation'] = rng.random() < 0.3
+    if p['with_inner_operation']:
+        p['body'].insert(rng.randrange(len(p['body'])) if p['body'] else 0, {'op': 'inner_op'})
     if rng.random() < 0.3:
         # the service records a datum under a key that some storage formats reserve
         p['body'].insert(0, {'op': 'record_data', 'key': '_metadata', 'value': {'lit': {'user': 'blob'}}})
